@@ -176,3 +176,74 @@ func runWS(h int, ver, filter string, pre, burst, dels int) []string {
 	}
 	return []string{fmtEvents(false, got), fmt.Sprintf("multi=%d", multi)}
 }
+
+// wslong <ver> <seconds> <gap>   (thorough tier only: it takes <seconds> of real time)
+//
+// A healthy monitor stays attached: a real v<ver> WebSocket client that keeps reading (and so answers pings)
+// while an event is dispatched every <gap> seconds for <seconds> seconds — longer than the reader's pong
+// deadline. The keep-alive (ping every pingPeriod < pongWait) must keep the connection up whatever the event
+// traffic: the client must still be connected at the end and hold every event.
+//
+//	field 1  T=<events received>     field 2  alive=<0|1> (the connection was still up when the last event was sent)
+func runWSLong(ver string, seconds, gap int) []string {
+	ctx, cancel := context.WithCancel(context.Background())
+	defer cancel()
+	host := extension.NewHost()
+	hub := msghub.New(0, host)
+	go hub.Start(ctx)
+	storage.Constructors["memory"] = mem.New
+	st, err := mem.New(config.Storage{MailboxMsgCap: 10}, host)
+	if err != nil {
+		return []string{"SETUP-FAILED"}
+	}
+	conf := &config.Root{MailboxNaming: config.LocalNaming}
+	mm := &message.StoreManager{AddrPolicy: &policy.Addressing{Config: conf}, Store: st, ExtHost: host}
+	routesOnce.Do(func() { rest.SetupRoutes(web.Router.PathPrefix("/api/").Subrouter()) })
+	web.NewServer(conf, mm, hub)
+	srv := httptest.NewServer(web.Router)
+	defer srv.Close()
+	url := "ws" + strings.TrimPrefix(srv.URL, "http") + "/api/v" + ver + "/monitor/messages"
+	conn, _, err := websocket.DefaultDialer.Dial(url, nil)
+	if err != nil {
+		return []string{"DIAL-FAILED"}
+	}
+	defer conn.Close()
+	var mu sync.Mutex
+	var got []evt
+	dead := make(chan struct{})
+	go func() { // the client keeps reading; gorilla answers pings from inside ReadMessage
+		defer close(dead)
+		for {
+			_, data, err := conn.ReadMessage()
+			if err != nil {
+				return
+			}
+			docs := docsOf(data)
+			if len(docs) > 0 {
+				if e, ok := eventOf(ver, docs[0]); ok {
+					mu.Lock()
+					got = append(got, e)
+					mu.Unlock()
+				}
+			}
+		}
+	}()
+	time.Sleep(50 * time.Millisecond)
+	n := 0
+	for t := 0; t < seconds; t += gap {
+		hub.Dispatch(event.MessageMetadata{Mailbox: "a", ID: strconv.Itoa(n), Date: time.Now()})
+		n++
+		time.Sleep(time.Duration(gap) * time.Second)
+	}
+	alive := "1"
+	select {
+	case <-dead:
+		alive = "0"
+	default:
+	}
+	hub.Dispatch(event.MessageMetadata{Mailbox: "a", ID: strconv.Itoa(n), Date: time.Now()})
+	time.Sleep(300 * time.Millisecond)
+	mu.Lock()
+	defer mu.Unlock()
+	return []string{fmtEvents(false, got), "alive=" + alive}
+}
